@@ -124,6 +124,15 @@ func c01Programs(th bool) []map[string]interface{} {
 	// a tensor read by a node that scales it (Gemm's C with beta != 1, alpha != 1) and read again afterwards
 	out = append(out, graphCase([]gnode{{"Gemm", "x,w,c2", "s", "beta=2;alpha=3"}, {"Add", "s,c2", "o", ""}, {"Mul", "x,w", "o2", ""}}, inputs, []string{"w:2,2", "c2:2,2"}, []string{"o", "s", "o2"}, sup))
 	out = append(out, graphCase([]gnode{{"Gemm", "x,y,y", "s", "beta=2;transA=1"}, {"Sub", "s,y", "o", ""}, {"Sub", "o,x", "o2", ""}}, inputs, inits, []string{"o2", "s"}, sup))
+	// one int64 initializer (axes / indices / target shape with negative or 0/-1 entries) read by two nodes of different geometry
+	ii := []string{"w:2,2", "ax:1:i64=-1", "idx:1:i64=-1", "shp:2:i64=0,-1", "x3:2,3"}
+	out = append(out, graphCase([]gnode{{"Unsqueeze", "x,ax", "a", ""}, {"Unsqueeze", "a,ax", "b", ""}, {"Squeeze", "b,ax", "o", ""}}, inputs, ii, []string{"a", "b", "o"}, sup))
+	out = append(out, graphCase([]gnode{{"Gather", "x3,idx", "a", "axis=1"}, {"Gather", "x,idx", "b", "axis=0"}, {"Gather", "x3,idx", "o", "axis=-1"}}, inputs, ii, []string{"a", "b", "o"}, sup))
+	out = append(out, graphCase([]gnode{{"Reshape", "x3,shp", "a", ""}, {"Concat", "x,y", "c", "axis=0"}, {"Reshape", "c,shp", "o", ""}}, inputs, ii, []string{"a", "o"}, sup))
+	// rank-0 graph inputs (no dimensions in the signature): supplied, defaulted by an initializer, both
+	out = append(out, graphCase([]gnode{{"Mul", "x,g", "o", ""}}, []string{"x:2,2", "g:"}, []string{"w:2,2"}, []string{"o"}, []string{"x", "g"}))
+	out = append(out, graphCase([]gnode{{"Mul", "x,g", "o", ""}}, []string{"x:2,2", "g:"}, []string{"g:"}, []string{"o"}, []string{"x", "g"}))
+	out = append(out, graphCase([]gnode{{"Mul", "x,g", "o", ""}}, []string{"x:2,2", "g:"}, []string{"g:"}, []string{"o", "g"}, []string{"x"}))
 	// Constant nodes (no inputs) and two Constants with different attributes
 	out = append(out, graphCase([]gnode{{"Constant", "", "c1", "value_float=2"}, {"Constant", "", "c2", "value_float=3"}, {"Mul", "x,c1", "a", ""}, {"Add", "a,c2", "o", ""}}, inputs, inits, []string{"o", "c1", "c2"}, sup))
 	return out
